@@ -1,0 +1,47 @@
+//go:build verif
+
+package openapi
+
+// Comment-only file: machine-checked contracts for /verif (see /verif/DESIGN.md).
+// There is no code in this file; the build tag keeps it out of every normal build.
+//
+// C10 (IR side, OpenAPI front end): the default a schema declares - and the values of an enum - enter
+// the IR as the very values the OpenAPI library decoded: not altered, not re-typed, not dropped. In
+// particular the default of an enum is the same Go value as the member it designates (the back ends
+// find the default member by comparing them).
+//@ func (*generator).walkString
+//@   property C10
+//@   requires schema != nil
+//@   ensures  default: result.1 == nil && result.0.Default == schema.Default
+//
+//@ func (*generator).walkNumber
+//@   property C10
+//@   requires schema != nil
+//@   ensures  default: result.1 == nil && result.0.Default == schema.Default
+//
+//@ func (*generator).walkInteger
+//@   property C10
+//@   requires schema != nil
+//@   ensures  default: result.1 == nil && result.0.Default == schema.Default
+//
+//@ func (*generator).walkBoolean
+//@   property C10
+//@   requires schema != nil
+//@   expand "ast.Bool", "ast.NewScalar"
+//@   ensures  default: result.1 == nil && result.0.Default == schema.Default
+//
+//@ func (*generator).walkEnum
+//@   property C10
+//@   requires schema != nil
+//@   expand "ast.NewEnum"
+//@   ensures  default: result.1 == nil ==> result.0.Default == schema.Default
+//@   ensures  members: result.1 == nil ==> result.0.Kind == ast.KindEnum && len(result.0.Enum.Values) == len(schema.Enum) && (forall v: int :: 0 <= v && v < len(schema.Enum) ==> result.0.Enum.Values[v].Value == schema.Enum[v])
+//@   loop 0:
+//@     invariant fresh: base(enums) != 0 && fresh(enums) && len(enums) == $i + 1
+//@     invariant members: forall v: int :: 0 <= v && v <= $i ==> enums[v].Value == schema.Enum[v]
+//
+//@ func (*generator).walkArray
+//@   property C10
+//@   requires schema != nil
+//@   expand "ast.NewArray"
+//@   ensures  default: result.1 == nil ==> result.0.Default == schema.Default
